@@ -106,6 +106,29 @@ def cases(tier, rng, schema, feats):
     for k in range(0, 6):
         for seq in itertools.product(range(3), repeat=k):
             add("dec2", _c14.mc([alpha[0]], [falpha[j] for j in seq]).hex(), tag="seq")
+    # SATURATED text: every text value of every request (names, ids, `type` strings of list entries, unknown members) replaced by text
+    # that fills 30..32, 62..64, 126..128 and 254..256 bytes with one repeated character whose lower-case, upper-case or normalised form
+    # has a different length in UTF-8 (U+0130 grows when lower-cased, U+00DF and the ligatures when upper-cased, the Kelvin sign
+    # shrinks): a copy transformed into a buffer of the same capacity overflows only for these
+    from .. import mutate as _mut
+    sens = ["\u0130", "\u023a", "\u023e", "\u00df", "\ufb01", "\u0149", "\u01f0", "\u0390", "\u212a", "\u212b", "\u1e9e", "\u0131", "\u017f"]
+    gs = gen.Gen(schema, rng.fork("sat"), tier)
+    for cmd, (variant, t) in REQUESTS.items():
+        tree = gs.named_wire(t, present="all")
+        texts = [pth for pth, node in _mut.paths(tree) if isinstance(node, (str, cbor.T)) and pth and pth[-1][0] in ("v", "e")]
+        for pth in texts:
+            for ch in sens:
+                w = len(ch.encode())
+                for total in (30, 31, 32, 62, 63, 64, 126, 127, 128, 254, 255, 256):
+                    if tier == "quick" and total in (30, 62, 126, 254):
+                        continue
+                    k = total // w
+                    txt = "a" * (total - k * w) + ch * k
+                    try:
+                        mt = _mut.replace(tree, pth, txt)
+                    except Exception:
+                        continue
+                    add("dec2", (bytes([cmd]) + cbor.enc(mt)).hex(), tag="sat")
     # the text-boundary corpus of C13 (every class of character at every alignment to the 64 / 128 byte limits): the string helpers
     # contain an unchecked unwrap and slice indexing
     from . import c13 as _c13
